@@ -82,3 +82,20 @@ def h_blocks(ctx):
 
 def harnesses(tier):
     return [Harness('csv_to_merchants_content', h_blocks, [ME + 'csv_to_merchants_content'])]
+
+
+def h_migration_converts_what_it_loaded(ctx):
+    """the migration entry point converts exactly the rules it loaded from the CSV file: the list handed to csv_to_merchants_content is the value
+    load_merchant_rules returned (not a filtered, de-duplicated or re-ordered derivative), and it is loaded from the file being migrated"""
+    from props import C15
+    fs, result, state = C15.run_migration(ctx, dict(C15.FS(False).files), 'none', 'wiring')
+    loaded = [o for o in fs.observed if o[0] == 'loaded']
+    conv = [o for o in fs.observed if o[0] == 'converted']
+    ctx.check('C14.migration.loads_the_csv_being_migrated', len(loaded) == 1 and loaded[0][1] == C15.CSV, 'property')
+    ctx.check('C14.migration.converts_exactly_the_loaded_rules', len(conv) == 1 and len(loaded) == 1 and conv[0][1] is loaded[0][2], 'property')
+    ctx.cover('migration.wiring')
+
+
+def harnesses(tier):       # noqa: F811
+    return [Harness('csv_to_merchants_content', h_blocks, [ME + 'csv_to_merchants_content']),
+            Harness('_migrate_csv_to_rules.wiring', h_migration_converts_what_it_loaded, ['tally.cli._migrate_csv_to_rules'])]
